@@ -19,12 +19,12 @@ fn role(c: u8) -> &'static str {
 
 /// For every ASCII string s of exactly L bytes, `escape_string(s)` is valid GraphQL string
 /// content (so `"` + it + `"` is a string literal) that denotes s.
-fn escape<S: Src, const L: usize>(s: &mut S) {
+fn escape<S: Src, const L: usize, const LO: u8, const HI: u8>(s: &mut S) {
     let mut b = [0u8; L];
     let mut i = 0;
     while i < L {
         b[i] = s.u8();
-        s.assume(b[i] < 0x80);
+        s.assume(b[i] >= LO && b[i] <= HI);
         i += 1;
     }
     let text = unsafe { String::from_utf8_unchecked(b.to_vec()) };
@@ -57,8 +57,9 @@ fn escape<S: Src, const L: usize>(s: &mut S) {
     std::mem::forget(out);
     std::mem::forget(text);
 }
-pub fn escape1<S: Src>(s: &mut S) { escape::<S, 1>(s) }
-pub fn escape2<S: Src>(s: &mut S) { escape::<S, 2>(s) }
+pub fn escape1_low<S: Src>(s: &mut S) { escape::<S, 1, 0x00, 0x3F>(s) }
+pub fn escape1_high<S: Src>(s: &mut S) { escape::<S, 1, 0x40, 0x7F>(s) }
+pub fn escape2<S: Src>(s: &mut S) { escape::<S, 2, 0x00, 0x7F>(s) }
 
 /// Single-line description mode: for every ASCII description of exactly L bytes without a
 /// line feed, the emitted line is `"<content>"` + LF where content is valid string content
@@ -110,7 +111,8 @@ pub fn description_single1<S: Src>(s: &mut S) { description_single::<S, 1>(s) }
 pub fn description_single2<S: Src>(s: &mut S) { description_single::<S, 2>(s) }
 
 harnesses! {
-    #[kani::unwind(6)] c17_escape1 => escape1;
+    #[kani::unwind(6)] c17_escape1_low => escape1_low;
+    #[kani::unwind(6)] c17_escape1_high => escape1_high;
     #[kani::unwind(7)] c17_escape2 => escape2;
     #[kani::unwind(8)] #[kani::stub(core::str::slice_error_fail, crate::stubs::slice_error_fail_stub)] c17_description_single1 => description_single1;
     #[kani::unwind(9)] #[kani::stub(core::str::slice_error_fail, crate::stubs::slice_error_fail_stub)] c17_description_single2 => description_single2;
